@@ -272,9 +272,9 @@ theorem expandMinimal_inv (c : Ctx n) (d : Diag n) (start : Nat) (sz : Option Na
     (h : StrictInv c d) : StrictInv c (expandMinimalWith c d start sz false allMins).1 :=
   minLoop_inv c sz allMins _ d _ _ _ h
 
-theorem blockLevel_inv (c : Ctx n) (sz : Option Nat) :
+theorem blockLevel_inv (c : Ctx n) (sz : Option Nat) (before : List Nat) :
     ∀ (cur : List Nat) (d : Diag n) (next : List Nat), StrictInv c d →
-      StrictInv c (blockLevel c sz cur d next).1 := by
+      StrictInv c (blockLevel c sz before cur d next).1 := by
   intro cur
   induction cur with
   | nil => intro d next h; simpa [blockLevel] using h
@@ -282,7 +282,9 @@ theorem blockLevel_inv (c : Ctx n) (sz : Option Nat) :
     intro d next h
     unfold blockLevel
     split
-    · exact ih _ _ h
+    · split
+      · exact ih _ _ h
+      · exact ih _ _ h
     · split
       · exact h
       · have h' := expandNode_inv c d node h
@@ -298,29 +300,30 @@ theorem blockLevel_inv (c : Ctx n) (sz : Option Nat) :
             · exact ih _ _ h'
 
 theorem blockLoop_inv (c : Ctx n) (sz : Option Nat) :
-    ∀ (fuel : Nat) (d : Diag n) (cur : List Nat), StrictInv c d → StrictInv c (blockLoop c sz fuel d cur).1 := by
+    ∀ (fuel : Nat) (d : Diag n) (cur before : List Nat), StrictInv c d →
+      StrictInv c (blockLoop c sz fuel d cur before).1 := by
   intro fuel
   induction fuel with
-  | zero => intro d cur h; simpa [blockLoop] using h
+  | zero => intro d cur before h; simpa [blockLoop] using h
   | succ fuel ih =>
-    intro d cur h
+    intro d cur before h
     unfold blockLoop
     split
     · exact h
-    · have h' := blockLevel_inv c sz (sortNat cur) d [] h
-      cases hx : blockLevel c sz (sortNat cur) d [] with
+    · have h' := blockLevel_inv c sz before (sortNat cur) d [] h
+      cases hx : blockLevel c sz before (sortNat cur) d [] with
       | mk d' r =>
         obtain ⟨next, early⟩ := r
         rw [hx] at h'
         simp only
         cases early with
         | some o => exact h'
-        | none => exact ih _ _ h'
+        | none => exact ih _ _ _ h'
 
 /-- block expansion (no source shortcuts, no motif-avoidant check) preserves the strict invariant -/
 theorem expandBlock_inv (c : Ctx n) (d : Diag n) (sz : Option Nat) (h : StrictInv c d) :
     StrictInv c (expandBlock c d sz).1 :=
-  blockLoop_inv c sz _ d _ h
+  blockLoop_inv c sz _ d _ _ h
 
 theorem seedLoop_inv (c : Ctx n) (sz : Option Nat) :
     ∀ (fuel : Nat) (d : Diag n) (seen : List Nat) (stack : List (Nat × Option (List Nat))) (found : List Bool),
